@@ -95,6 +95,9 @@ def materialise_budget(root, b, rnd):
     srcs = []
     for si, s in enumerate(b['sources']):
         fn = 'data/%s%d.csv' % (s['name'].lower(), si + 1)        # two sources may have the same name: one file each
+        if (si + len(b['sources']) + len(str(b.get('cur'))) + len(str(b.get('mode'))) + len(str(b.get('rules')))) % 3 == 0:
+            # a file NAME is not a pattern: brackets, stars and question marks in it are ordinary characters of the path
+            fn = 'data/%s [%d] (x1) st*r.csv' % (s['name'].lower(), 4320 + si)
         delim = DELIM[s['delim']]
         # "the amounts of this source are negated" has two spellings: {-amount} in the format string, or negate_amount: true
         negkey = s['sign'] == 'negate' and b.get('_negkey')
